@@ -133,6 +133,16 @@ func c06(tier string, args []string) int {
 		}
 		fens = append(fens, f)
 	}
+	// the draw rules inside the tree: clocks 97..99 and shuffle histories (the root itself is never a draw)
+	drawStep := 4
+	if tier == "thorough" {
+		drawStep = 1
+	}
+	for _, f := range drawCases(append([]string{}, fens...), drawStep, false) {
+		if r, _, err := caseRef(f); err == nil && len(r.LegalMoves()) > 0 && !caseRootIsDrawn(f) {
+			fens = append(fens, f)
+		}
+	}
 	ctx := &mmCtx{ev: evaluator.NewEvaluator()}
 	for i := 0; i < 8; i++ {
 		ctx.mg = append(ctx.mg, movegen.NewMoveGen())
@@ -146,10 +156,10 @@ func c06(tier string, args []string) int {
 	plain := map[key]Value{}
 	soundCfg(0, true).apply()
 	for _, f := range fens {
-		r := refchess.MustFEN(f)
+		r := mustCaseRef(f)
 		single := len(r.LegalMoves()) == 1
 		for d := 1; d <= maxDepth; d++ {
-			p, _ := position.NewPositionFen(f)
+			p := casePos(f)
 			dd := d
 			if single {
 				dd = 1
@@ -161,6 +171,8 @@ func c06(tier string, args []string) int {
 			plain[key{f, d}] = runSearch(s, p, search.Limits{Depth: d}).BestValue
 		}
 	}
+	mm0 := func(f string, d int) (Value, bool) { v, ok := mm[key{f, d}]; return v, ok }
+	plain0 := func(f string, d int) (Value, bool) { v, ok := plain[key{f, d}]; return v, ok }
 	var searches int64
 	for ji, j := range jobs {
 		if ji%n != shard {
@@ -179,9 +191,9 @@ func c06(tier string, args []string) int {
 				if run.Expired() {
 					break
 				}
-				r := refchess.MustFEN(f)
+				r := mustCaseRef(f)
 				for d := 1; d <= maxDepth; d++ {
-					p, _ := position.NewPositionFen(f)
+					p := casePos(f)
 					s := search.NewSearch()
 					s.SetUciHandler(&capDriver{})
 					var res search.Result
@@ -197,7 +209,7 @@ func c06(tier string, args []string) int {
 					if !qs {
 						want := mm[key{f, d}]
 						explained := func() bool {
-							q, _ := position.NewPositionFen(f)
+							q := casePos(f)
 							return treeHasClamp(q, ctx.mg, d+1, 0)
 						}
 						if res.BestValue != want {
@@ -213,7 +225,7 @@ func c06(tier string, args []string) int {
 							}
 						} else if len(r.LegalMoves()) > 1 {
 							// the best move attains the value
-							q, _ := position.NewPositionFen(f)
+							q := casePos(f)
 							q.DoMove(res.BestMove)
 							var v Value
 							if q.CheckRepetitions(2) || q.HalfMoveClock() >= 100 {
@@ -228,7 +240,7 @@ func c06(tier string, args []string) int {
 						}
 					} else if want := plain[key{f, d}]; res.BestValue != want {
 						rep["value"], rep["plain_alphabeta_value"] = int(res.BestValue), int(want)
-						q, _ := position.NewPositionFen(f)
+						q := casePos(f)
 						if treeHasClamp(q, ctx.mg, d+2, 0) {
 							run.Violate(keyClamp, whatClamp, rep)
 						} else {
@@ -237,10 +249,102 @@ func c06(tier string, args []string) int {
 					}
 				}
 			}
+			// histories sharing the hash table (it is kept between searches; used for move ordering only it must not
+			// change any value): (a) the same Search instance after a deeper search of the same position, (b) game
+			// continuation - after a search of the position two plies earlier. Only where the table is switched on.
+			if cfg["UseTT"] {
+				for fi, f := range fens {
+					if run.Expired() {
+						break
+					}
+					if tier != "thorough" && fi%3 != 0 {
+						continue
+					}
+					c06Histories(run, ctx, f, name, qs, maxDepth, mm0, plain0)
+				}
+			}
 			run.SampleCat("config", map[string]interface{}{"config": name, "positions": len(fens), "max_depth": maxDepth})
 		}
 	}
 	run.AddEvals(searches)
 	run.Set("positions_per_config", len(fens))
 	return run.FinishWorker()
+}
+
+// c06Histories: searches of case f on a Search instance whose hash table was filled by earlier searches.
+func c06Histories(run *vl.Run, ctx *mmCtx, f string, cfgName string, qs bool, maxDepth int, mm, plain func(string, int) (Value, bool)) {
+	check := func(s *search.Search, c string, d int, hist string, want Value) {
+		p := casePos(c)
+		var res search.Result
+		msg, pan := vl.Guard(func() { res = runSearch(s, p, search.Limits{Depth: d}) })
+		run.AddStates(1)
+		run.Count("searches_on_a_filled_hash_table", 1)
+		rep := map[string]interface{}{"kind": "search", "fen": c, "depth": d, "config": cfgName, "history": hist}
+		if pan {
+			run.Violate("search-panic", msg, rep)
+			return
+		}
+		run.AddTransitions(int64(s.NodesVisited()))
+		if res.BestValue == want {
+			return
+		}
+		rep["value"], rep["value_on_a_fresh_instance"] = int(res.BestValue), int(want)
+		q := casePos(c)
+		if treeHasClamp(q, ctx.mg, d+2, 0) {
+			run.Violate(keyClamp, whatClamp, rep)
+			return
+		}
+		run.Violate("value-depends-on-hash-table-history", fmt.Sprintf("depth %d value %d on a Search that searched before (%s), %d on a fresh one", d, res.BestValue, hist, want), rep)
+	}
+	ref := func(c string, d int) (Value, bool) {
+		if qs {
+			return plain(c, d)
+		}
+		return mm(c, d)
+	}
+	// (a) deeper search of the same position first
+	s := search.NewSearch()
+	s.SetUciHandler(&capDriver{})
+	if _, pan := vl.Guard(func() { runSearch(s, casePos(f), search.Limits{Depth: maxDepth + 1}) }); pan {
+		return
+	}
+	for d := 1; d <= maxDepth; d++ {
+		if want, ok := ref(f, d); ok {
+			check(s, f, d, fmt.Sprintf("depth %d search of the same position", maxDepth+1), want)
+		}
+	}
+	// (b) game continuation: search, play the best move and the reply found, search the new position with the same instance
+	s = search.NewSearch()
+	s.SetUciHandler(&capDriver{})
+	var first search.Result
+	if _, pan := vl.Guard(func() { first = runSearch(s, casePos(f), search.Limits{Depth: maxDepth + 1}) }); pan || first.BestMove == MoveNone {
+		return
+	}
+	c := caseAppend(f, first.BestMove.StringUci())
+	if first.PonderMove != MoveNone {
+		c = caseAppend(c, first.PonderMove.StringUci())
+	}
+	r, _, err := caseRef(c)
+	if err != nil || len(r.LegalMoves()) == 0 || caseRootIsDrawn(c) {
+		return
+	}
+	// reference values of the continuation on a fresh instance in the plain configuration (quiescence) or by minimax
+	for d := 1; d <= maxDepth; d++ {
+		var want Value
+		if qs {
+			saved := currentCfg()
+			soundCfg(0, true).apply()
+			fs := search.NewSearch()
+			fs.SetUciHandler(&capDriver{})
+			want = runSearch(fs, casePos(c), search.Limits{Depth: d}).BestValue
+			saved.apply()
+		} else {
+			dd := d
+			if len(r.LegalMoves()) == 1 {
+				dd = 1
+			}
+			want = ctx.minimax(casePos(c), dd, 0)
+		}
+		check(s, c, d, "game continuation after a depth "+fmt.Sprint(maxDepth+1)+" search two plies earlier", want)
+	}
 }
